@@ -76,6 +76,7 @@ PROPS = {
     ),
     "C06": dict(
         extra_modules=["CstModel.Proofs.Conc"],
+        tags=["C06", "C05"],   # the slot / lock discipline the counter compensation relies on is evaluated on the same executions
         runs=runs([("conc:lifecycle", "release"), ("conc:traverse", "release"), ("miri:all", "miri")],
                   [("conc:lifecycle", "release"), ("conc:lifecycle", "debug"), ("conc:traverse", "release"), ("conc:data", "release"), ("miri:all", "miri")]),
         rule="cases = executions under the deterministic scheduler of 8 fixed + 10 (thorough 60) random clone/drop/traverse/send programs over 1-3 threads (handles "
@@ -93,9 +94,11 @@ PROPS = {
     ),
     "C07": dict(
         extra_modules=["CstModel.Proofs.MemModel", "CstModel.Proofs.MemSlots"],
-        tags=["C07"],
-        runs=runs([("conc:lifecycle", "release"), ("miri:all", "miri")],
-                  [("conc:lifecycle", "release"), ("conc:traverse", "release"), ("conc:data", "release"), ("miri:all", "miri")]),
+        # a premature / double free or an access outside its lock found by the scheduler is a conflicting pair of accesses that
+        # nothing orders; a handle type that is Send/Sync for data that is not lets safe code share that data unsynchronised
+        tags=["C07", "C06", "C05", "C08"],
+        runs=runs([("conc:lifecycle", "release"), ("miri:all", "miri"), ("probe:c08", "rustc")],
+                  [("conc:lifecycle", "release"), ("conc:traverse", "release"), ("conc:data", "release"), ("miri:all", "miri"), ("probe:c08", "rustc")]),
         rule="(a) cases = the scheduler executions of the lifecycle (thorough: + traverse, data) suites (see C06): their event streams -- every counter RMW with its site and "
              "resulting value, every hand-over of a handle, every dereference of a red node (`acc`) -- are replayed through the Lean happens-before model "
              "`Mem.step` with the extracted orderings: the model's counter must equal the implementation's after every RMW, every dereference must come from a "
@@ -158,14 +161,14 @@ PROPS = {
         not_yet_proved=["chunks_tree is stated for slices that exist (both ends on character boundaries): that a view cut inside a character makes the query that reaches the cut panic is tied by correspondence only"],
     ),
     "C13": dict(
+        extra_modules=["CstModel.Proofs.ChunksTree"],
         runs=runs([("queries", "release")], [("queries", "release"), ("queries", "debug")]),
         rule="cases = every tree with <= 4 (thorough 5) elements over {interned 'a', interned '', 'éb', static ''} incl. empty nodes and zero-length tokens at every "
              "boundary x every node as starting point x every offset in [start, end] x every range inside [start, end] (exhaustive), on a fresh red tree; "
              "+ the first offset / range outside the precondition (must panic); + 60 random queries on each of 200 (thorough 2000) random trees; plain and resolved API; "
              "non-trivial = a query inside the precondition was answered; distinct = distinct op text",
         assumptions=["theorems cover covering_element (contains the range, never panics inside the precondition); token_at_offset is tied by the exhaustive correspondence and the brute-force oracle, its totality/specification proof is listed under not_yet_proved"],
-        not_yet_proved=["tao_complete: the token(s) returned are the ONLY non-empty tokens of the sub-tree whose closed range contains the offset (tao_spec proves that the answer "
-                        "is such a token / such a meeting pair, and that `Between` occurs only strictly inside the node; uniqueness follows from the tiling but is not stated as a theorem)"],
+        not_yet_proved=[],
     ),
     "C14": dict(
         runs=runs([("replace", "release")], [("replace", "release"), ("replace", "debug"), ("replace", "lasso")]),
